@@ -203,6 +203,9 @@ func (s *Protocol) InvokeTimeout(pkg []byte) []byte {
 	reqPackage := requestf.RequestPacket{}
 	is := codec.NewReader(pkg[4:])
 	reqPackage.ReadFrom(is)
+	// the timeout response must be recognisable by the caller: echo version and packet type, too
+	rspPackage.IVersion = reqPackage.IVersion
+	rspPackage.CPacketType = reqPackage.CPacketType
 	rspPackage.IRequestId = reqPackage.IRequestId
 	rspPackage.IRet = 1
 	rspPackage.SResultDesc = "server invoke timeout"
